@@ -12,7 +12,7 @@ Observable = the global log:  [0,l,i] plain handler i of event l invoked;  [1,l,
 handler i of event l;  [2,l] `e<l>_complete` fired;  [3,l] `e<l>_complete` dispatched;  [5,l,p] event l fired
 by a handler of event p (0 = by the harness) -- the ghost causality tree.
 """
-import sys, os, threading
+import sys, os, threading, signal
 sys.path.insert(0, os.path.dirname(os.path.abspath(__file__)))
 import common
 from common import Prop
@@ -21,6 +21,16 @@ from circuits import Component, Event, handler
 from circuits.core.manager import Manager
 
 MAXTICKS = 400
+MAXLOG = 5000          # a run that logs more than this is a runaway loop in the code under test
+WATCHDOG_S = 10
+
+
+class Runaway(BaseException):
+    pass
+
+
+def _alarm(signo, frame):
+    raise Runaway('case did not finish within %d s' % WATCHDOG_S)
 
 
 class Scripted(RuntimeError):
@@ -86,6 +96,8 @@ def run_script(case):
             nm = getattr(event, 'name', '')
             if nm.endswith('_complete') and nm[:1] == 'e' and nm[1:-9].isdigit():
                 log.append([2, int(nm[1:-9])])
+            if len(log) > MAXLOG:
+                raise Runaway('more than %d log entries' % MAXLOG)
             return Manager.fireEvent(self, event, *channels, **kw)
 
         fire = fireEvent
@@ -146,6 +158,10 @@ def run_script(case):
         app._tasks = tasks
     # as run() does: fires from handlers and task steps are own-thread fires
     app._executing_thread = threading.current_thread()
+    old = None
+    if threading.current_thread() is threading.main_thread():
+        old = signal.signal(signal.SIGALRM, _alarm)
+        signal.setitimer(signal.ITIMER_REAL, WATCHDOG_S, 1)
     try:
         for spec in case['roots']:
             fire_child(spec, 0)
@@ -160,6 +176,9 @@ def run_script(case):
             app.tick()
             sched.append([[x[1], x[2]] for x in log[mark:] if x[0] == 1])
     finally:
+        if old is not None:
+            signal.setitimer(signal.ITIMER_REAL, 0)
+            signal.signal(signal.SIGALRM, old)
         app._executing_thread = None
     fired = [x[1] for x in log if x[0] == 5]
     live = [l for l in fired if getattr(objs[l], 'cause', None) is not None]
@@ -237,7 +256,7 @@ class C05(Prop):
     id = 'C05'
     props_file = 'Props/C05.v'
     imports = ['Model.Effects', 'Model.EffectsObs']
-    quick_n = 700
+    quick_n = 500
     thorough_n = 6000
     rule = ('forests of scripted events (1-3 roots, <= 20 events, depth <= 5, fan-out <= 3 per handler / 2 per generator '
             'step, 0-3 handlers per event): plain handlers that fire, stop(), raise; generator handlers firing from each '
